@@ -353,15 +353,14 @@ theorem lookup_byClient_regRemove {j : Nat} {n : NodeSt} (h : NodeOk j n) (c : C
   by_cases hc : c ∈ n.ctrl
   · simp only [hc, if_true]
     by_cases hl : FMap.lookup n.byClient x = some c
-    · obtain ⟨_, h2, h3, h4⟩ := h.byClient x c hl
+    · obtain ⟨_, _, h3, _⟩ := h.byClient x c hl
       subst h3
-      simp [hl, h2, h4, FMap.lookup_erase_eq]
+      simp [hl, FMap.lookup_erase_eq]
     · simp only [hl, if_false]
       split
       · rename_i hcond
-        simp only [Bool.and_eq_true, decide_eq_true_eq] at hcond
         have hne : c.client ≠ x := by
-          intro e; subst e; exact hl hcond.2
+          intro e; subst e; exact hl hcond
         exact FMap.lookup_erase_ne _ hne
       · rfl
   · simp only [hc, if_false]
